@@ -68,9 +68,10 @@ def string_bodies(rng, n_random):
     for s in ["\\x41", "\\x7f", "\\x00", "\\xff", "\\xFF", "\\x4", "\\x4g", "\\xg1", "\\x", "\\u0041", "\\u300f", "\\uD800", "\\udfff", "\\uffff", "\\u004", "\\u", "\\ug000",
               "\\u{41}", "\\u{0}", "\\u{1f600}", "\\u{10FFFF}", "\\u{110000}", "\\u{d800}", "\\u{}", "\\u{g}", "\\u{41", "\\u{000000041}", "\\u{ffffffff}", "\\u{100000000}",
               "\\0", "\\00", "\\01", "\\07", "\\08", "\\1", "\\7", "\\12", "\\123", "\\377", "\\400", "\\8", "\\9", "\\\n", "\\\r\n",
-              "a\\nb", "\\x001", "\\0a", "é", "\U0001f600", "a b", "", "'", "\\x41\\x42\\u0043"]:
+              "a\\nb", "\\x001", "\\0a", "é", "\U0001f600", "a b", "", "'", "\\x41\\x42\\u0043",
+              "\\é", "caf\\é", "\\あ", "\\\U0001f600", "\\\u2028", "\\ÿ", "\\\x7f", "\\\x01", "x\\é\\n"]:
         out.append((s, "escape-form"))
-    alphabet = ["a", "Z", " ", "é", "あ", "\U0001f600", "\\n", "\\t", "\\\\", '\\"', "\\x41", "\\u0041", "\\u{1f600}", "\\0", "\\q", "\\x4", "\\u12", "'", "%1"]
+    alphabet = ["a", "Z", " ", "é", "あ", "\U0001f600", "\\n", "\\t", "\\\\", '\\"', "\\x41", "\\u0041", "\\u{1f600}", "\\0", "\\q", "\\x4", "\\u12", "'", "%1", "\\é", "\\あ", "\\\U0001f600"]
     for _ in range(n_random):
         out.append(("".join(rng.choice(alphabet) for _ in range(rng.randrange(0, 8))), "string-random"))
     return out
